@@ -127,6 +127,7 @@ type AWorld struct {
 	rtMaster  *Agent
 	stepA     atomic.Int64 // copy of step readable from other goroutines
 	baseAt    map[int]map[int]string
+	rr        *randRecorder
 	maxQ      map[string]int
 	progress  int
 	schedHash uint64
@@ -137,7 +138,7 @@ func (w *AWorld) Choose(kind string, n int) int { return w.r.Choose(kind, n) }
 // inAgentBubble sets up the simulated world and runs f as the bubble's root (= scheduler).
 func inAgentBubble(r *Run, f func(w *AWorld)) {
 	inBubble(r, func(rr *randRecorder) {
-		w := &AWorld{r: r, maxQ: map[string]int{}}
+		w := &AWorld{r: r, maxQ: map[string]int{}, rr: rr}
 		w.fs = simfs.New()
 		w.fs.Now = time.Now
 		w.fs.CrashMode = simfs.CrashBlock
